@@ -211,42 +211,44 @@ Lemma w_encode_fields ty d w :
   w_sync (w_encode ty d w) = w_sync w /\ w_opt (w_encode ty d w) = w_opt w.
 Proof. unfold w_encode, encode_rec, set_tail. cbn. auto. Qed.
 
-Lemma create_tail_sinv w0 meta :
+Lemma create_stageA w0 meta :
   data_ok meta -> tinv w0 0 [] -> w_seq w0 = 0 -> w_meta w0 = meta -> w_nrec w0 = 1 -> w_sync w0 = None ->
-  sinv (w_save_snapshot {| sn_index := 0; sn_term := 0 |}
-         (w_encode c_metadataType meta (w_encode c_crcType None w0))) meta [].
+  let wa := w_encode c_metadataType meta (w_encode c_crcType None w0) in
+  tinv wa 0 (hd2 meta) /\ w_seq wa = 0 /\ w_meta wa = meta /\ w_nrec wa = 1 /\ w_sync wa = None.
 Proof.
-  intros Hm H0 Hq0 Hm0 Hn0 Hs0.
+  intros Hm H0 Hq0 Hm0 Hn0 Hs0. cbv zeta.
   pose proof (w_encode_inv _ _ _ c_crcType None H0 enc_ok_crc) as H1.
   pose proof (w_encode_inv _ _ _ c_metadataType meta H1 (enc_ok_meta _ Hm)) as H2.
-  set (wa := w_encode c_metadataType meta (w_encode c_crcType None w0)) in *.
-  assert (Hfa : w_seq wa = 0 /\ w_meta wa = meta /\ w_nrec wa = 1 /\ w_sync wa = None).
-  { subst wa.
-    destruct (w_encode_fields c_metadataType meta (w_encode c_crcType None w0)) as (-> & -> & -> & -> & _).
-    destruct (w_encode_fields c_crcType None w0) as (-> & -> & -> & -> & _). auto. }
-  destruct Hfa as (Hqa & Hma & Hna & Hsa). clearbody wa.
+  split; [exact H2|].
+  destruct (w_encode_fields c_metadataType meta (w_encode c_crcType None w0)) as (-> & -> & -> & -> & _).
+  destruct (w_encode_fields c_crcType None w0) as (-> & -> & -> & -> & _). auto.
+Qed.
+
+Lemma create_stageB wa meta sn :
+  tinv wa 0 (hd2 meta) -> w_seq wa = 0 -> w_meta wa = meta -> w_nrec wa = 1 -> w_sync wa = None ->
+  let w := w_save_snapshot sn wa in
+  let recs := hd2 meta ++ [rec_of_lrec (LSnap sn)] in
+  tinv w 0 recs /\ w_seq w = 0 /\ w_meta w = meta /\ w_nrec w = 1 /\
+  (forall s, w_sync w = Some s -> sy_off s = blen (fst (encode_all 0 recs)) /\ sy_rec s = 1).
+Proof.
+  intros H2 Hqa Hma Hna Hsa. cbv zeta.
   unfold w_save_snapshot.
-  pose proof (w_encode_inv _ _ _ c_snapshotType (Some (snap_marshal {| sn_index := 0; sn_term := 0 |})) H2
-                (enc_ok_snap _)) as H3.
-  set (w1 := w_encode c_snapshotType (Some (snap_marshal {| sn_index := 0; sn_term := 0 |})) wa) in *.
+  pose proof (w_encode_inv _ _ _ c_snapshotType (Some (snap_marshal sn)) H2 (enc_ok_snap _)) as H3.
+  set (w1 := w_encode c_snapshotType (Some (snap_marshal sn)) wa) in *.
   assert (Hf1 : w_seq w1 = 0 /\ w_meta w1 = meta /\ w_nrec w1 = 1 /\ w_sync w1 = None).
-  { subst w1. destruct (w_encode_fields c_snapshotType (Some (snap_marshal {| sn_index := 0; sn_term := 0 |})) wa)
-      as (-> & -> & -> & -> & _). auto. }
+  { subst w1. destruct (w_encode_fields c_snapshotType (Some (snap_marshal sn)) wa) as (-> & -> & -> & -> & _). auto. }
   destruct Hf1 as (Hq1 & Hm1 & Hn1 & Hs1). clearbody w1.
-  set (w2 := if w_enti w1 <? sn_index {| sn_index := 0; sn_term := 0 |} then w_set_enti w1 _ else w1) in *.
-  assert (H4 : tinv w2 0 (recs_of meta [])).
-  { subst w2. destruct (w_enti w1 <? _); [now apply w_set_enti_inv|exact H3]. }
+  set (w2 := if w_enti w1 <? sn_index sn then w_set_enti w1 (sn_index sn) else w1) in *.
+  assert (H4 : tinv w2 0 (hd2 meta ++ [rec_of_lrec (LSnap sn)])).
+  { subst w2. destruct (w_enti w1 <? sn_index sn); [now apply w_set_enti_inv|exact H3]. }
   assert (Hf2 : w_seq w2 = 0 /\ w_meta w2 = meta /\ w_nrec w2 = 1 /\ w_sync w2 = None).
-  { subst w2. destruct (w_enti w1 <? _); cbn [w_set_enti w_seq w_meta w_nrec w_sync]; auto. }
+  { subst w2. destruct (w_enti w1 <? sn_index sn); cbn [w_set_enti w_seq w_meta w_nrec w_sync]; auto. }
   destruct Hf2 as (Hq2 & Hm2 & Hn2 & Hs2). clearbody w2.
-  constructor.
-  - now apply w_sync_op_inv.
-  - exact Hq2.
-  - exact Hm2.
-  - cbn [w_sync_op w_nrec]. rewrite Hn2. reflexivity.
-  - destruct (negb (w_opt w2)).
-    + apply sync_now; [exact H4|]. rewrite Hn2. reflexivity.
-    + cbn [w_sync_op w_sync]. rewrite Hs2. discriminate.
+  split; [now apply w_sync_op_inv|]. split; [exact Hq2|]. split; [exact Hm2|]. split; [exact Hn2|].
+  intros s Hs. cbn [w_sync_op w_sync] in Hs. destruct (negb (w_opt w2)); [|congruence].
+  inversion Hs; subst s. cbn [sy_off sy_rec]. split; [|exact Hn2].
+  destruct (pw_flush_total (w_pw w2)) as [Hft Hfb]. unfold pw_total in *.
+  rewrite <- (ti_tail _ _ _ H4), <- (ti_pw _ _ _ H4). unfold pw_total. lia.
 Qed.
 
 Definition w_blank (opt : bool) (seg : N) (meta : option bytes) : wal :=
@@ -271,7 +273,11 @@ Qed.
 Lemma w_create_sinv opt seg meta : data_ok meta -> sinv (w_create opt seg meta) meta [].
 Proof.
   intros Hm. rewrite w_create_eq.
-  apply (create_tail_sinv (w_blank opt seg meta) meta Hm (w_blank_tinv opt seg meta Hm)); reflexivity.
+  destruct (create_stageA (w_blank opt seg meta) meta Hm (w_blank_tinv opt seg meta Hm) eq_refl eq_refl eq_refl eq_refl)
+    as (Ha & Hqa & Hma & Hna & Hsa).
+  destruct (create_stageB _ meta {| sn_index := 0; sn_term := 0 |} Ha Hqa Hma Hna Hsa) as (Ht & Hq & Hme & Hn & Hs).
+  constructor; auto.
+  intros s Hss. exists 0%nat. destruct (Hs s Hss) as [Ho Hr]. split; [lia|]. split; [exact Ho|exact Hr].
 Qed.
 
 (* a history that never left its first segment *)
@@ -285,4 +291,175 @@ Proof.
     unfold w_run in *. rewrite fold_left_app in *. cbn [fold_left] in *.
     pose proof (w_step_seq_mono (fold_left w_step ops (w_create opt seg meta)) o) as Hmono.
     apply sinv_step; auto. apply IH; auto. lia.
+Qed.
+
+(* ---------- the directory of a history that stayed in its first segment ---------- *)
+Lemma w_encode_dir ty d w : w_idx (w_encode ty d w) = w_idx w /\ w_closed (w_encode ty d w) = w_closed w /\
+                            w_segsize (w_encode ty d w) = w_segsize w.
+Proof. unfold w_encode, encode_rec, set_tail. cbn. auto. Qed.
+
+Lemma save_state_dir s w : w_idx (save_state s w) = w_idx w /\ w_segsize (save_state s w) = w_segsize w.
+Proof.
+  unfold save_state. destruct (hs_is_empty s); [auto|].
+  destruct (w_encode_dir c_stateType (Some (hs_marshal s)) (w_set_state w s)) as (-> & _ & ->). auto.
+Qed.
+
+Lemma save_entries_dir : forall ents w,
+  w_idx (fold_left (fun w e => save_entry e w) ents w) = w_idx w /\
+  w_segsize (fold_left (fun w e => save_entry e w) ents w) = w_segsize w.
+Proof.
+  induction ents as [|e r IH]; intros w; [auto|]. cbn [fold_left].
+  destruct (IH (save_entry e w)) as [-> ->]. unfold save_entry. cbn [w_set_enti w_idx w_segsize].
+  destruct (w_encode_dir c_entryType (Some (entry_marshal e)) w) as (-> & _ & ->). auto.
+Qed.
+
+Lemma w_save_snapshot_dir sn w :
+  w_idx (w_save_snapshot sn w) = w_idx w /\ w_segsize (w_save_snapshot sn w) = w_segsize w /\
+  w_closed (w_save_snapshot sn w) = w_closed w.
+Proof.
+  unfold w_save_snapshot. cbn [w_sync_op w_idx w_segsize w_closed].
+  destruct (w_enti _ <? sn_index sn); cbn [w_set_enti w_idx w_segsize w_closed];
+    destruct (w_encode_dir c_snapshotType (Some (snap_marshal sn)) w) as (-> & -> & ->); auto.
+Qed.
+
+Lemma w_step_dir w o :
+  w_seq (w_step w o) = w_seq w ->
+  w_idx (w_step w o) = w_idx w /\ w_segsize (w_step w o) = w_segsize w /\
+  (w_closed w = [] -> w_closed (w_step w o) = []).
+Proof.
+  unfold w_step. intros Hq. destruct o as [st ents|sn|i|].
+  - unfold w_save in *. destruct (hs_is_empty st && _); [cbn; auto|]. cbv zeta in *.
+    set (w2 := save_state st (fold_left (fun w e => save_entry e w) ents (w_add_nrec w _))) in *.
+    assert (H2 : w_idx w2 = w_idx w /\ w_segsize w2 = w_segsize w /\ w_closed w2 = w_closed w /\ w_seq w2 = w_seq w).
+    { subst w2. destruct (save_state_dir st (fold_left (fun w e => save_entry e w) ents (w_add_nrec w (wop_nrec (OSave st ents))))) as [-> ->].
+      destruct (save_entries_dir ents (w_add_nrec w (wop_nrec (OSave st ents)))) as [-> ->].
+      destruct (save_state_names st (fold_left (fun w e => save_entry e w) ents (w_add_nrec w (wop_nrec (OSave st ents))))) as [-> ->].
+      destruct (save_entries_names ents (w_add_nrec w (wop_nrec (OSave st ents)))) as [-> ->]. cbn. auto. }
+    destruct H2 as (Hi & Hg & Hc & Hs). clearbody w2.
+    destruct (pw_flushed (w_pw w2) <? w_segsize w2).
+    + destruct (negb _ || _); cbn [w_sync_op w_idx w_segsize w_closed]; rewrite ?Hi, ?Hg, ?Hc; auto.
+    + rewrite w_cut_seq in Hq. lia.
+  - destruct (w_save_snapshot_dir sn (w_add_nrec w (wop_nrec (OSnap sn)))) as (-> & -> & ->). cbn. auto.
+  - unfold w_release. cbn. split; [auto|]. split; [auto|]. intros ->. now rewrite skipn_nil.
+  - cbn. auto.
+Qed.
+
+Theorem w_run_dir opt seg meta ops :
+  w_seq (w_run opt seg meta ops) = 0 ->
+  w_idx (w_run opt seg meta ops) = 0 /\ w_segsize (w_run opt seg meta ops) = seg /\ w_closed (w_run opt seg meta ops) = [].
+Proof.
+  induction ops as [|o ops IH] using rev_ind; intros Hz.
+  - unfold w_run. cbn [fold_left]. rewrite w_create_eq.
+    destruct (w_save_snapshot_dir {| sn_index := 0; sn_term := 0 |}
+                (w_encode c_metadataType meta (w_encode c_crcType None (w_blank opt seg meta)))) as (-> & -> & ->).
+    destruct (w_encode_dir c_metadataType meta (w_encode c_crcType None (w_blank opt seg meta))) as (-> & -> & ->).
+    destruct (w_encode_dir c_crcType None (w_blank opt seg meta)) as (-> & -> & ->).
+    auto.
+  - unfold w_run in *. rewrite fold_left_app in *. cbn [fold_left] in *.
+    set (w := fold_left w_step ops (w_create opt seg meta)) in *.
+    pose proof (w_step_seq_mono w o) as Hmono.
+    assert (Hq : w_seq w = 0) by lia.
+    destruct (IH Hq) as (Hi & Hg & Hc).
+    destruct (w_step_dir w o ltac:(lia)) as (-> & -> & Hcl). auto.
+Qed.
+
+(* ---------- sync points carry the name of the segment they were taken on ---------- *)
+Definition sync_name_inv (w : wal) : Prop :=
+  forall s, w_sync w = Some s -> sy_seq s <= w_seq w /\ (sy_seq s = w_seq w -> sy_idx s = w_idx w).
+
+Lemma sync_name_same w w' :
+  w_sync w' = w_sync w -> w_seq w' = w_seq w -> w_idx w' = w_idx w -> sync_name_inv w -> sync_name_inv w'.
+Proof. unfold sync_name_inv. intros -> -> ->. auto. Qed.
+
+Lemma sync_name_sync_op fs w : sync_name_inv w -> sync_name_inv (w_sync_op fs w).
+Proof.
+  intros H s Hs. cbn [w_sync_op w_sync w_seq w_idx] in *. destruct fs; [|auto].
+  inversion Hs; subst s. cbn. split; [lia|auto].
+Qed.
+
+Lemma w_encode_sync ty d w : w_sync (w_encode ty d w) = w_sync w.
+Proof. apply w_encode_fields. Qed.
+
+Lemma save_state_sync s w : w_sync (save_state s w) = w_sync w.
+Proof. unfold save_state. destruct (hs_is_empty s); [reflexivity|]. now rewrite w_encode_sync. Qed.
+
+Lemma save_entries_sync : forall ents w, w_sync (fold_left (fun w e => save_entry e w) ents w) = w_sync w.
+Proof.
+  induction ents as [|e r IH]; intros w; [reflexivity|]. cbn [fold_left]. rewrite IH.
+  unfold save_entry. cbn [w_set_enti w_sync]. apply w_encode_sync.
+Qed.
+
+Lemma sync_name_cut w : sync_name_inv w -> sync_name_inv (w_cut w).
+Proof.
+  intros H. unfold w_cut.
+  pose proof (sync_name_sync_op (negb (w_opt w)) w H) as H1.
+  set (w1 := w_sync_op (negb (w_opt w)) w) in *. clearbody w1.
+  set (w2 := {| w_opt := w_opt w1; w_segsize := w_segsize w1; w_meta := w_meta w1; w_state := w_state w1;
+               w_enti := w_enti w1; w_crc := w_crc w1;
+               w_closed := w_closed w1 ++ [{| sg_seq := w_seq w1; sg_idx := w_idx w1; sg_bytes := w_tail w1; sg_rec := w_tailrec w1 |}];
+               w_seq := w_seq w1 + 1; w_idx := w_enti w1 + 1; w_tail := [];
+               w_pw := {| pw_off := 0; pw_buf := 0; pw_flushed := 0 |};
+               w_sync := w_sync w1; w_nrec := w_nrec w1; w_tailrec := w_nrec w1 |}).
+  assert (H2 : sync_name_inv w2).
+  { intros s Hs. cbn [w2 w_sync w_seq w_idx] in *. destruct (H1 s Hs) as [Hle _]. split; lia. }
+  clearbody w2.
+  set (w3 := w_encode c_crcType None w2).
+  assert (H3 : sync_name_inv w3).
+  { subst w3. eapply sync_name_same; [apply w_encode_sync|apply w_encode_names|apply w_encode_dir|exact H2]. }
+  clearbody w3.
+  set (w4 := w_encode c_metadataType (w_meta w3) w3).
+  assert (H4 : sync_name_inv w4).
+  { subst w4. eapply sync_name_same; [apply w_encode_sync|apply w_encode_names|apply w_encode_dir|exact H3]. }
+  clearbody w4.
+  set (w5 := save_state (w_state w4) w4).
+  assert (H5 : sync_name_inv w5).
+  { subst w5. eapply sync_name_same; [apply save_state_sync|apply save_state_names|apply save_state_dir|exact H4]. }
+  clearbody w5.
+  pose proof (sync_name_sync_op (negb (w_opt w5)) w5 H5) as H6.
+  set (w6 := w_sync_op (negb (w_opt w5)) w5) in *. clearbody w6.
+  eapply sync_name_same; [| | |exact H6]; reflexivity.
+Qed.
+
+Lemma sync_name_save_snapshot sn w : sync_name_inv w -> sync_name_inv (w_save_snapshot sn w).
+Proof.
+  intros H0. unfold w_save_snapshot. apply sync_name_sync_op.
+  destruct (w_enti _ <? sn_index sn).
+  - eapply sync_name_same; [| | |exact H0]; cbn [w_set_enti w_sync w_seq w_idx];
+      [apply w_encode_sync|apply w_encode_names|apply w_encode_dir].
+  - eapply sync_name_same; [apply w_encode_sync|apply w_encode_names|apply w_encode_dir|exact H0].
+Qed.
+
+Lemma sync_name_encode ty d w : sync_name_inv w -> sync_name_inv (w_encode ty d w).
+Proof. intros H. eapply sync_name_same; [apply w_encode_sync|apply w_encode_names|apply w_encode_dir|exact H]. Qed.
+
+Lemma sync_name_step w o : sync_name_inv w -> sync_name_inv (w_step w o).
+Proof.
+  intros H. unfold w_step.
+  assert (H0 : sync_name_inv (w_add_nrec w (wop_nrec o))) by (eapply sync_name_same; [| | |exact H]; reflexivity).
+  set (w0 := w_add_nrec w (wop_nrec o)) in *. clearbody w0.
+  destruct o as [st ents|sn|i|].
+  - unfold w_save. destruct (hs_is_empty st && _); [exact H0|]. cbv zeta.
+    set (w2 := save_state st (fold_left (fun w e => save_entry e w) ents w0)).
+    assert (H2 : sync_name_inv w2).
+    { subst w2. eapply sync_name_same; [| | |exact H0].
+      - rewrite save_state_sync. apply save_entries_sync.
+      - rewrite (proj2 (save_state_names _ _)). apply save_entries_names.
+      - rewrite (proj1 (save_state_dir _ _)). apply save_entries_dir. }
+    clearbody w2.
+    destruct (pw_flushed (w_pw w2) <? w_segsize w2).
+    + destruct (negb _ || _); [now apply sync_name_sync_op|exact H2].
+    + now apply sync_name_cut.
+  - now apply sync_name_save_snapshot.
+  - eapply sync_name_same; [| | |exact H0]; reflexivity.
+  - now apply sync_name_sync_op.
+Qed.
+
+Theorem w_run_sync_name opt seg meta ops : sync_name_inv (w_run opt seg meta ops).
+Proof.
+  unfold w_run.
+  assert (H0 : sync_name_inv (w_create opt seg meta)).
+  { rewrite w_create_eq. apply sync_name_save_snapshot, sync_name_encode, sync_name_encode.
+    intros s Hs. discriminate. }
+  revert H0. generalize (w_create opt seg meta).
+  induction ops as [|o r IH]; intros w Hw; [exact Hw|]. cbn [fold_left]. apply IH. now apply sync_name_step.
 Qed.
